@@ -329,7 +329,11 @@ class Body:
         """a dominates b (w.r.t. entry 0)"""
         if a == b:
             return True
-        return b not in self.reachable(0, {a})
+        dc = self.__dict__.setdefault("_domcache", {})
+        r = dc.get(a)
+        if r is None:
+            r = dc[a] = self.reachable(0, {a})
+        return b not in r
 
     def exits(self):
         """live blocks ending in return"""
